@@ -82,6 +82,9 @@ def run(ctx):
                       "appears exactly once with its own printed value; an auto-generated name and unchanged parameters are left out", floor=1)
     ctx.rule("R20.d", "the recursion guard of the object printer tells a recursive call by (object identity, thread identity), both obtained inside the per-call wrapper of _recursive_repr "
                       "(a thread identity captured when the decorator is applied makes concurrent printing of a shared nested object emit `...`)", floor=1)
+    ctx.rule("R20.e", "what counts as changed: the comparator behind values(onlychanged=True) -- which decides what pprint / script_repr may leave out -- interpreted on small containers: "
+                      "equal iff same type, same keys and equal values KEY BY KEY (a dict with the default's keys in another order and positionally matching values is a changed value) -- "
+                      "shared with R03.c", floor=1)
     ctx.rule("R20.n", "the value the printer reads is the value attribute access gives: no reader of the per-instance value store conflates an explicit None with 'not set' "
                       "(values() would report the class default for a parameter set to None, and the printed text rebuilds the default) -- shared with R15.g", floor=1)
     ctx.not_decided += ["that repr() of the leaf values (strings needing escapes, negative numbers) evaluates back to an equal value (Python's repr, not this code base)",
@@ -92,6 +95,8 @@ def run(ctx):
     float_model(ctx, "R20.b")
     object_printer_model(ctx, "R20.c")
     recursion_guard_rule(ctx, "R20.d")
+    from checks.shared import comparator_model
+    comparator_model(ctx, "R20.e")
     from checks.c15 import value_store_none_is_a_value
     value_store_none_is_a_value(ctx, "R20.n", "pprint / script_repr then leave the keyword out or print the default: the rebuilt object holds the default instead of None",
                                 "Number(default=1.5, allow_None=True); obj.x = None; eval(obj.param.pprint()).x -> 1.5")
